@@ -512,8 +512,17 @@ func (c *Compiler) isFeatureValid(m parse.Node, n parse.Node, featTree map[strin
 // Filter out any features that do not appear in the yang
 func (c *Compiler) checkFeatures() error {
 	filteredFeatures := newFeaturesMap()
-	for _, module := range c.modules {
-		m := module.GetModule()
+	// In a fixed order: when unknown references are skipped, an if-feature
+	// naming a feature its module does not define adds a stand-in feature to
+	// that module, and whether the module had been visited by then decided
+	// whether the stand-in could be enabled.
+	names := make([]string, 0, len(c.modules))
+	for name := range c.modules {
+		names = append(names, name)
+	}
+	sort.Strings(names)
+	for _, name := range names {
+		m := c.modules[name].GetModule()
 		dupChk := make(map[string]bool)
 		for _, feat := range m.ChildrenByType(parse.NodeFeature) {
 			if _, ok := dupChk[feat.Name()]; ok {
